@@ -11,7 +11,7 @@ class C03(SessionCheck):
     RULE = ('lock-step histories on the real Session/RPC/RPCReplyListener objects over the three transports and 14 profiles: '
             '1-6 pipelined asynchronous requests, replies in random order (qualified / unqualified / prefixed rpc-reply), '
             'interleaved notifications and unknown messages, duplicate / unknown / missing message-ids (odd flavour), short writes, '
-            'arbitrary read segmentation; every step compared with the Lean model; socket sessions with 2-5 client threads, a first-request race, and an application that re-seeds the global RNG before every request. Non-trivial = history of >= 8 commands; distinct by case.')
+            'arbitrary read segmentation; every step compared with the Lean model; socket sessions with 2-5 client threads, a first-request race, an application that re-seeds the global RNG before every request, two sessions in one process of which one ends while the other has requests outstanding, and 1100+ requests outstanding at once on one session. Non-trivial = history of >= 8 commands; distinct by case.')
 
     def e2e_cases(self, rng, tier):
         from cases import session_gen as SG
@@ -33,7 +33,38 @@ class C03(SessionCheck):
             # payloads that are themselves complete <rpc message-id="101"> elements (pasted from documentation), several outstanding
             out.append({'kind': 'e2e', 'sc': {'transport': 'unix', 'profile': ['default', 'junos'][i % 2], 'threads': 3, 'per_thread': 2, 'window': 4, 'notifs': 0,
                                               'seg': 'whole', 'pasted': True, 'seed': rng.randrange(1 << 30)}})
+        # two sessions alive in one process: one ENDS (close_session / EOF from its server / local close) while the other has requests
+        # outstanding whose replies arrive afterwards
+        ends = ['close_session', 'server-eof', 'local-close']
+        for i in range(3 if tier == 'quick' else 18):
+            out.append({'kind': 'two', 'sc': {'end': ends[i % 3], 'held': 1 + i % 3, 'profile': ['default', 'junos', 'nexus'][(i // 3) % 3],
+                                              'transport_a': ['unix', 'ssh', 'tls'][(i // 3) % 3] if tier == 'thorough' else 'unix', 'transport_b': 'unix'}})
+        # MANY requests outstanding at the same time on one session (beyond any table size a tidy-up might assume), some never answered
+        sizes = [(1100, 0, 'fifo'), (1300, 1100, 'shuffled')] if tier == 'quick' else [(1100, 0, 'fifo'), (2500, 0, 'lifo'), (4200, 4000, 'shuffled'), (70000, 0, 'fifo')]
+        for n, stale, order in sizes:
+            out.append({'kind': 'many', 'sc': {'n': n, 'stale': stale, 'order': order, 'seed': rng.randrange(1 << 30)}})
         return out
+
+    def run_impl(self, case):
+        if case.get('kind') == 'two':
+            from impl.e2e import run_two
+            return run_two(case['sc'])
+        if case.get('kind') == 'many':
+            from impl.e2e import run_many
+            return run_many(case['sc'])
+        return super().run_impl(case)
+
+    def nontrivial(self, case, io):
+        return True if case.get('kind') in ('two', 'many') else super().nontrivial(case, io)
+
+    def shrink(self, case, still_fails):
+        return case if case.get('kind') in ('two', 'many') else super().shrink(case, still_fails)
+
+    def model_lines(self, case):
+        return [] if case.get('kind') in ('two', 'many') else super().model_lines(case)
+
+    def compare(self, case, io, mo):
+        return None if case.get('kind') in ('two', 'many') else super().compare(case, io, mo)
 
     def oracle_e2e(self, case, io):
         if io.get('connect') != 'ok':
@@ -53,6 +84,26 @@ class C03(SessionCheck):
     def oracle(self, case, io):
         if case.get('kind') == 'e2e':
             return self.oracle_e2e(case, io)
+        if case.get('kind') == 'two':
+            sc = case['sc']
+            if io.get('connect') != 'ok':
+                return ('C03:e2e-connect', 'connect failed: %s' % io.get('connect'))
+            want = [['reply', 'B%d' % i] for i in range(sc['held'])]
+            if io['b_out'] != want or any(x != 'pending' for x in io['b_before']):
+                return ('C03:other-session-disturbed', 'session A ended (%s) while session B had %d requests outstanding: B\'s requests were %s before their '
+                        'replies arrived (errors %s) and ended as %s' % (sc['end'], sc['held'], io['b_before'], io['b_errors_before'], io['b_out']))
+            if not io['b_connected'] or io['b_after'] != 'ok':
+                return ('C03:other-session-disturbed', 'session B was no longer usable after session A ended (%s): connected=%s, next request: %s' % (
+                    sc['end'], io['b_connected'], io['b_after']))
+            return None
+        if case.get('kind') == 'many':
+            sc = case['sc']
+            if io['distinct_ids'] != sc['n']:
+                return ('C03:duplicate-message-id', '%d requests carried only %d distinct message-ids' % (sc['n'], io['distinct_ids']))
+            if io['n_wrong'] or io['listener_errors']:
+                return ('C03:reply-not-delivered-among-many', '%d requests outstanding at once (%d of them never answered): %d answered requests did not '
+                        'complete with their own reply (e.g. %s; listener errors %s)' % (sc['n'], sc['stale'], io['n_wrong'], io['wrong'], io['listener_errors']))
+            return None
         seen = {}
         for step, o in enumerate(io['obs']):
             for i, st in rpc_states(o).items():
